@@ -33,7 +33,9 @@ Fixpoint norm_tree (t : tree) : tree :=
   end.
 
 (* ---------------------------------------------------------------- styles *)
-Inductive style := StPre | StEnc | StSep.
+(* StEncD: the enclosed family with distinct start / end characters; the code has no way to
+   close a section there, so it only carries option lists *)
+Inductive style := StPre | StEnc | StSep | StEncD.
 
 (* the format description strings the styles are used with *)
 Definition style_fmt (st : style) : option (list Z) :=
@@ -41,6 +43,7 @@ Definition style_fmt (st : style) : option (list Z) :=
   | StPre => None                                   (* default: braces, equal sign, comment hash, double and single quote *)
   | StEnc => Some [37; 120; 37; 32; 61; 32; 35]     (* percent x percent blank equal blank hash *)
   | StSep => Some [91; 32; 93; 32; 61; 32; 35]      (* bracket blank bracket blank equal blank hash *)
+  | StEncD => Some [91; 120; 93; 32; 61; 32; 35]    (* bracket x bracket blank equal blank hash *)
   end.
 
 (* ---------------------------------------------------------------- decoration *)
@@ -170,7 +173,7 @@ Fixpoint print_sep (i : ditem) : list Z :=
   end.
 
 Definition print_ditem (st : style) (i : ditem) : list Z :=
-  match st with StPre => print_pre i | StEnc => print_enc i | StSep => print_sep i end.
+  match st with StPre => print_pre i | StEnc => print_enc i | StSep => print_sep i | StEncD => print_enc i end.
 
 Definition print_ditems (st : style) (l : list ditem) (final : deco) : list Z :=
   concat (map (print_ditem st) l) ++ lead final.
@@ -188,6 +191,7 @@ Definition name_char (st : style) (c : Z) : bool :=
   | StPre => negb (c =? 123) && negb (c =? 125)
   | StEnc => negb (c =? 37) && negb (isspace c)
   | StSep => negb (c =? 91) && negb (c =? 93) && negb (isspace c)
+  | StEncD => negb (c =? 91) && negb (c =? 93) && negb (isspace c)
   end.
 
 Definition wf_name (st : style) (take : Z) (n : list Z) : bool :=
@@ -225,7 +229,7 @@ Fixpoint opts_first (l : list item) (seen_sec : bool) : bool :=
 
 Definition wf_items (st : style) (a : allow) (l : list item) : bool :=
   forallb (wf_item st a O) l &&
-  match st with StPre => true | _ => opts_first l false end.
+  match st with StPre => true | StEncD => forallb is_opt l | _ => opts_first l false end.
 
 (* ---------------------------------------------------------------- parse *)
 Definition parse_tree (st : style) (a : allow) (l : list Z) : Z * list tree :=
